@@ -37,6 +37,18 @@ CHECKS = {
         note="Trusts the model of the two documented text forms; names outside the stated domain (empty, multi-line, surrounding blanks) are not generated.",
         design="5/C12",
     ),
+    "C01": dict(
+        technique="round-trip monitor: model-built objects written and read by the real code through StringIO and file paths, compared field by field with the model; file bytes inspected for CRLF; ResourceWarning trap",
+        text="Directed (every payload length 1..50 and around multiples of 16/40/256/4096, 0..33 trailing zeros, description sizes up to 210 and beyond, zero components/comments) and seeded random file objects are written with the real writer and read back with the real reader in 5 configurations (stream/path x MAC on/off, path-written read as stream). The object read back is compared with the generator's model of what was written, so symmetric damage of the input object is seen too.",
+        note="Equality oracle only; symmetric writer/reader errors are C03's business. Shards run with PYTHONUTF8=1.",
+        design="5/C01",
+    ),
+    "C03": dict(
+        technique="invariant-at-a-hook monitor: wrappers on Bf3File.to_binary / Bec2File.to_binary / write_bf3_format compare every output with an independent serialiser+parser (OpenSSL MACs); auth blocks opened by independent container/ECIES models",
+        text="Every call of the three writer functions - made by the generated workload (offsets 0..2^16+, all 15 ordered auth-block lists, encrypted components, unsorted tag order) and by the four appnote scripts - is intercepted; the produced bytes must equal the independent serialiser's bytes and be accepted by the independent parser, the text envelope must be comment lines, one blank line and 80-column upper-case hex. Each auth block is additionally opened with OpenSSL-based models using the harness's keys.",
+        note="Trusts OpenSSL AES/ECDH and the layout model written from the property text; a trailing empty line in the text is tolerated.",
+        design="5/C03",
+    ),
 }
 
 NOT_YET = "check not built yet in this session (see DESIGN.md section 5 for the planned monitor)"
